@@ -905,6 +905,18 @@ static void propTab1(vh::Rng& r, vh::PropLog& log, int cases)
                     chk(close((f.eval(x2) - f.eval(x)) / (x2 - x), f.evalDerivative(x), 1e-6, 1e-9), "t1.slope", "x=" + num(x) + " x2=" + num(x2));
             }
         }
+        // the two extrapolated rays: the returned derivative is the slope of the ray, i.e. the chord slope of the
+        // end segment (theorem eval_hasDerivAt_extrapolated)
+        const double span = xs[n - 1] - xs[0];
+        for (int side = 0; side < 2; ++side) {
+            const double a = side ? xs[n - 1] + span * (0.01 + r.unit()) : xs[0] - span * (0.01 + r.unit());
+            const double b = side ? a + span * (0.1 + r.unit()) : a - span * (0.1 + r.unit());
+            const double chord = side ? (ys[n - 1] - ys[n - 2]) / (xs[n - 1] - xs[n - 2]) : (ys[1] - ys[0]) / (xs[1] - xs[0]);
+            const double dq = (f.eval(b, true) - f.eval(a, true)) / (b - a), de = f.evalDerivative(a, true);
+            const std::string where = std::string(side ? "right" : "left") + " of the table, n=" + std::to_string(n) + " x=" + num(a) + " x2=" + num(b);
+            chk(close(dq, de, 1e-6, 1e-9), "t1.slope.extrapolated", where + " difference quotient " + num(dq) + " evalDerivative " + num(de));
+            chk(close(de, chord, 1e-12, 1e-300), "t1.slope.extrapolated.chord", where + " evalDerivative " + num(de) + " end segment chord slope " + num(chord));
+        }
     }
 }
 
